@@ -3,6 +3,7 @@ package main
 import (
 	"context"
 	"fmt"
+	"runtime"
 	"sort"
 	"strings"
 	"sync"
@@ -82,25 +83,30 @@ type probeKey struct{}
 
 type recProvider struct {
 	metric.MeterProvider
-	log  *evlog
-	slow time.Duration // every Meter() call of the SDK takes this much longer (widens the installation walk)
+	log     *evlog
+	slow    time.Duration // every Meter() call of the SDK takes this much longer (widens the installation walk)
+	slowReg time.Duration // every RegisterCallback of the SDK takes this much longer (widens the hand-over)
 }
 
 func (p *recProvider) Meter(name string, opts ...metric.MeterOption) metric.Meter {
 	if p.slow > 0 {
 		time.Sleep(p.slow)
 	}
-	return &recMeter{Meter: p.MeterProvider.Meter(name, opts...), log: p.log}
+	return &recMeter{Meter: p.MeterProvider.Meter(name, opts...), log: p.log, slowReg: p.slowReg}
 }
 
 type recMeter struct {
 	metric.Meter
-	log *evlog
+	log     *evlog
+	slowReg time.Duration
 }
 
 func (m *recMeter) RegisterCallback(f metric.Callback, insts ...metric.Observable) (metric.Registration, error) {
 	id := -1
 	_ = f(context.WithValue(context.Background(), probeKey{}, &id), nil) // the harness callbacks answer a probe with their id
+	if m.slowReg > 0 {
+		time.Sleep(m.slowReg)
+	}
 	reg, err := m.Meter.RegisterCallback(f, insts...)
 	if err != nil {
 		return reg, err
@@ -294,10 +300,13 @@ type world struct {
 
 	// further SDKs installed by overlapping installation calls with different provider values
 	moreReaders []*sdkmetric.ManualReader
-	moreRecs    []*tracetest.SpanRecorder
+	// further readers of the SAME installed SDK, and how they are collected at the end
+	sameSDKReaders    []*sdkmetric.ManualReader
+	concurrentCollect bool
+	moreRecs          []*tracetest.SpanRecorder
 }
 
-func newWorld() *world {
+func newWorld(readers int, concurrent bool, slowReg time.Duration) *world {
 	w := &world{log: &evlog{}, meters: map[int]metric.Meter{}, insts: map[int]*inst{}, regs: map[int]*regH{}, tracers: map[int]trace.Tracer{},
 		mscope: map[int]scopeID{}, tscope: map[int]scopeID{}}
 	// handles obtained from the global API before anything is installed
@@ -305,8 +314,15 @@ func newWorld() *world {
 	w.tp0 = otel.GetTracerProvider()
 	w.prop0 = otel.GetTextMapPropagator()
 	w.reader = sdkmetric.NewManualReader()
-	w.sdk = sdkmetric.NewMeterProvider(sdkmetric.WithReader(w.reader))
-	w.wrapped = &recProvider{MeterProvider: w.sdk, log: w.log}
+	opts := []sdkmetric.Option{sdkmetric.WithReader(w.reader)}
+	for i := 1; i < readers; i++ { // an SDK with several readers: every callback runs once per reader
+		rd := sdkmetric.NewManualReader()
+		w.sameSDKReaders = append(w.sameSDKReaders, rd)
+		opts = append(opts, sdkmetric.WithReader(rd))
+	}
+	w.concurrentCollect = concurrent
+	w.sdk = sdkmetric.NewMeterProvider(opts...)
+	w.wrapped = &recProvider{MeterProvider: w.sdk, log: w.log, slowReg: slowReg}
 	w.rec = tracetest.NewSpanRecorder()
 	w.tsdk = sdktrace.NewTracerProvider(sdktrace.WithSpanProcessor(w.rec))
 	return w
@@ -473,6 +489,10 @@ func (w *world) opRegister(r, k int, obs []*inst) *regH {
 		}
 		h.ran.Add(1)
 		for _, x := range obs {
+			if w.concurrentCollect {
+				runtime.Gosched()
+				time.Sleep(20 * time.Microsecond)
+			}
 			x.observe(o, r)
 		}
 		return nil
@@ -729,20 +749,11 @@ func (w *world) finish(res *result) {
 	evs := w.log.sorted()
 	var sdkCreation [][3]int
 	byN := map[string]map[int]int{}
-	byCB := map[string]map[int]bool{}
 	if w.installed.Load() {
-		before := map[int]int64{}
-		for r, h := range w.regs {
-			before[r] = h.ran.Load()
+		byN, sdkCreation = w.collectAll(res)
+		if byN == nil {
+			byN = map[string]map[int]int{}
 		}
-		var rm metricdata.ResourceMetrics
-		if err := w.reader.Collect(context.Background(), &rm); err != nil {
-			res.Bad = append(res.Bad, "Collect: "+err.Error())
-		}
-		var bad []string
-		byN, byCB, bad = arrivals(&rm)
-		res.Bad = append(res.Bad, bad...)
-		w.checkIdentities(&rm, res)
 		for _, rd := range w.moreReaders { // whichever SDK won the Once received the measurements
 			var rm2 metricdata.ResourceMetrics
 			if err := rd.Collect(context.Background(), &rm2); err != nil {
@@ -756,27 +767,6 @@ func (w *world) finish(res *result) {
 				}
 				for k, v := range m {
 					byN[name][k] += v
-				}
-			}
-		}
-		var ids []int
-		for r := range w.regs {
-			ids = append(ids, r)
-		}
-		sort.Ints(ids)
-		for _, r := range ids {
-			h := w.regs[r]
-			found := 0
-			for _, x := range h.obs {
-				if byCB[x.name][r] {
-					found++
-				}
-			}
-			ran := int(h.ran.Load() - before[r])
-			res.Live = append(res.Live, [4]int{r, ran, found, len(h.obs)})
-			if h.creation {
-				for i := 0; i < ran; i++ {
-					sdkCreation = append(sdkCreation, [3]int{evSdkReg, r, 0})
 				}
 			}
 		}
